@@ -157,6 +157,22 @@ class _Worker:
         self.xsh.aliases["rec"] = rec
         self.sink = io.StringIO()
         signal.signal(signal.SIGALRM, _alarm)
+        # The candidates travel through path._complete_path_raw in a `set`, so the order in which
+        # _quote_paths visits them depends on the hash seed.  For directories with several entries
+        # the real _quote_paths is therefore handed the same candidates as a LIST in an order chosen
+        # by the harness (every permutation is run); with self.order None it is called untouched.
+        import xonsh.completers.path as xcp
+
+        self.order = None
+        real_quote_paths = xcp._quote_paths
+
+        def ordered_quote_paths(paths, *a, **kw):
+            if self.order is not None:
+                rank = self.order
+                paths = sorted(paths, key=lambda s_: (rank.get(s_, len(rank)), s_))
+            return real_quote_paths(paths, *a, **kw)
+
+        xcp._quote_paths = ordered_quote_paths
 
     # -- the situation the property talks about -------------------------------------------------
     def admit(self, line, cursor, closer):
@@ -221,7 +237,8 @@ class _Worker:
         return line[: cursor - prefix_len] + text + line[cursor:]
 
     def execute(self, src, name):
-        """Run the line for real; returns the observation: list of argv lists, or 'exc:<Type>'."""
+        """Run the line for real; returns the observation: list of argv lists, or 'exc:<Type>'.
+        `name`: the directory entry (or a tuple of entries) that must survive."""
         self.rec.clear()
         self.xsh.ctx.clear()
         self.sink.seek(0)
@@ -261,9 +278,10 @@ class _Worker:
             entries = os.listdir(self.cwd)
         except OSError:
             entries = []
-        if entries != [name]:
+        keep = (name,) if isinstance(name, str) else tuple(name)
+        if sorted(entries) != sorted(keep):
             for e in entries:
-                if e != name:
+                if e not in keep:
                     p = os.path.join(self.cwd, e)
                     if os.path.isdir(p) and not os.path.islink(p):
                         shutil.rmtree(p, ignore_errors=True)
@@ -392,6 +410,137 @@ def check_name(name):
     return res
 
 
+# ------------------------------------------------------------------------------- part 1b: several entries
+
+# One representative per quoting class, all starting with the same letter so that one typed prefix
+# matches them all: plain, `$`, backslash, each quote kind, control character, blank (+ more in thorough).
+MULTI_POOL_QUICK = ["ab", "a$b", "a\\b", "a'b", 'a"b', "a\nb", "a b"]
+MULTI_POOL_THOROUGH = MULTI_POOL_QUICK + ["a\tb", "a*b", "a;b", "a{b", "a#b", "a~b", "aé"]
+MULTI_TYPED = ["", "a"]
+
+
+def multi_sets(pool, sizes=(2, 3)):
+    out = []
+    for k in sizes:
+        out.extend(itertools.combinations(pool, k))
+    return out
+
+
+def multi_cases():
+    """(generated style, closed, line, cursor) for directories with several entries."""
+    out = []
+    for style in STYLES:
+        closer = _closer(style)
+        for closed in _CLOSED_VARIANTS if style else (False,):
+            for p in MULTI_TYPED:
+                line = "rec " + style + p
+                cursor = len(line)
+                out.append((style, closed, line + (closer if closed else ""), cursor))
+    return out
+
+
+def check_multi(names):
+    """Directory with SEVERAL entries: every admitted typed text x EVERY visiting order of the
+    candidates.  Each returned completion must read back as exactly one argument naming one of the
+    entries.  A failing completion whose text is exactly what the completer offers for one of the
+    entries when it is alone in the directory is the single-entry failure (reported by part 1) and is
+    not counted again; anything else is specific to the company the entry keeps / the visiting order."""
+    w = _W
+    names = tuple(names)
+    res = {"names": list(names), "admitted": 0, "completions": 0, "execs": 0, "same_as_single": 0, "failing": 0, "fails": []}
+    cases = []
+    for gstyle, closed, line, cursor in multi_cases():
+        adm = w.admit(line, cursor, _closer(gstyle) if closed else "")
+        if adm is None or not all(n.startswith(adm[1]) for n in names):
+            continue
+        cases.append((adm[0], closed, line, cursor))
+    # what the completer offers for each entry alone (to recognise single-entry failures)
+    single = collections.defaultdict(set)
+    for n in names:
+        w.make(n, "file")
+        try:
+            for style, closed, line, cursor in cases:
+                for text, plen in w.completions(line, cursor):
+                    single[(line, cursor)].add((text, plen))
+        finally:
+            w.remove(n, "file")
+    for n in names:
+        w.make(n, "file")
+    try:
+        exec_cache = {}
+        allowed = [[n] for n in names]
+        for style, closed, line, cursor in cases:
+            res["admitted"] += 1
+            per_perm = {}
+            for perm in itertools.permutations(names):
+                w.order = {n: i for i, n in enumerate(perm)}
+                try:
+                    comps = w.completions(line, cursor)
+                finally:
+                    w.order = None
+                bad = []
+                for text, plen in comps:
+                    res["completions"] += 1
+                    new = w.splice(line, cursor, text, plen)
+                    if new not in exec_cache:
+                        exec_cache[new] = w.execute(new, names)
+                        res["execs"] += 1
+                    obs = exec_cache[new]
+                    if isinstance(obs, list) and len(obs) == 1 and obs[0] in allowed:
+                        continue
+                    if (text, plen) in single[(line, cursor)]:
+                        res["same_as_single"] += 1
+                        continue
+                    bad.append((text, plen, new, obs))
+                per_perm[perm] = bad
+            failing_perms = [p for p, b in per_perm.items() if b]
+            if not failing_perms:
+                continue
+            res["failing"] += 1
+            perm = failing_perms[0]
+            text, plen, new, obs = per_perm[perm][0]
+            res["fails"].append({
+                "names": list(names), "style": style, "closed": closed, "line": line, "cursor": cursor, "order": list(perm),
+                "completion": text, "prefix_len": plen, "spliced": new, "observed": obs,
+                "sig": signature(obs, names[0], "file") or "value",
+                "orders_failing": len(failing_perms), "orders_total": len(per_perm),
+            })
+    finally:
+        w.order = None
+        for n in names:
+            p = os.path.join(w.cwd, n)
+            if os.path.exists(p):
+                os.unlink(p)
+        left = os.listdir(w.cwd)
+        if left:
+            raise common.ToolError(f"scratch cwd not empty after {names!r}: {left!r}")
+    return res
+
+
+def classify_multi(fails):
+    """key = roundtrip-multi:<typed style>[+closing-quote-after-cursor]:<shapes of the smallest failing set of
+    entries>:<class>:<order-dependent|any-order>.  A failing triple is attributed to a failing pair it contains
+    (same style / closing quote / class) when there is one."""
+    table = {}
+    for f in fails:
+        table.setdefault((frozenset(f["names"]), f["style"], bool(f["closed"]), sig_class(f["sig"])), f)
+    out = []
+    for f in fails:
+        ident = (f["style"], bool(f["closed"]), sig_class(f["sig"]))
+        names = tuple(f["names"])
+        best = names
+        if len(names) > 2:
+            for sub in itertools.combinations(names, 2):
+                if (frozenset(sub),) + ident in table:
+                    best = sub
+                    break
+        g = table[(frozenset(best),) + ident]
+        dep = "order-dependent" if g["orders_failing"] < g["orders_total"] else "any-order"
+        style = STYLE_NAMES.get(f["style"], f["style"]) + ("+closing-quote-after-cursor" if f["closed"] else "")
+        out.append(("roundtrip-multi:%s:%s:%s:%s" % (style, "|".join(shape(n) for n in best), ident[2], dep), best, f))
+    return out
+
+
 # ------------------------------------------------------------------------------- part 1: keys
 
 
@@ -455,17 +604,53 @@ def classify_roundtrip(fails):
 
 ALPHA2 = ["a", " ", "'", '"', "\\", "$", "(", ")", "[", "]", "{", "}", "|", "&", ";", "\n", "@", "!", ">", "#"]
 ALPHA2_REDUCED = ["a", " ", "'", "\\", "\n", "$", "(", ")"]
+# part 3: string-prefix letters in front of every quote kind (the bare quotes double as closers, so
+# terminated and unterminated literals of every kind occur), plus a few neighbours
+_PREFIXES = ["", "f", "F", "rf", "fr", "b", "r"]
+_QUOTES = ["'", '"', "'''", '"""']
+ALPHA3 = [p_ + q_ for p_ in _PREFIXES for q_ in _QUOTES] + ["a", " ", "\n", "&&", ">", "{", "}", "\\"]
+ALPHA3_REDUCED = [p_ + q_ for p_ in ["", "f", "rf", "b"] for q_ in ["'", "'''"]] + ["a", " ", "\n", "&&", ">", "{", "}", "\\"]
 _P2 = None
 _P2_STEM = 2  # work items are (length, alphabet id, first _P2_STEM symbols)
-_ALPHAS = {"full": ALPHA2, "reduced": ALPHA2_REDUCED}
+_ALPHAS = {"full": ALPHA2, "reduced": ALPHA2_REDUCED, "strings": ALPHA3, "strings-reduced": ALPHA3_REDUCED}
 LC = "\\\n"
+
+# An unterminated single-quoted f-string followed by a newline makes the tolerant tokenizer spin
+# forever (see _p2_class).  Texts of that shape get a short CPU-time fuse, everything else a long one.
+HANG_RE = re.compile(r"""(?:[fF][rR]?|[rR][fF])(['"])(?!\1\1)[^\n]*\n""")
+_FUSE_SHORT = 0.03  # seconds of this process's CPU time (ITIMER_VIRTUAL: independent of machine load)
+_FUSE_LONG = 1.0
+_LOOP_OWNERS = ("_tokenize", "get_tokens", "token", "parseopt_notrack", "parse")
+_HANG_WHERE = "?"
+
+
+class _Hang(BaseException):
+    pass
+
+
+def _vt_alarm(signum, frame):
+    global _HANG_WHERE
+    _HANG_WHERE = "?"
+    f = frame
+    while f is not None:
+        if f.f_code.co_name in _LOOP_OWNERS and "xonsh" in f.f_code.co_filename:
+            _HANG_WHERE = f.f_code.co_name
+            break
+        f = f.f_back
+    raise _Hang()
 
 
 def _init_p2():
     global _P2
+    import gc
+    import warnings
+
     from xonsh.parsers.completion_context import CompletionContextParser
 
+    warnings.simplefilter("ignore")
     _P2 = CompletionContextParser()
+    signal.signal(signal.SIGVTALRM, _vt_alarm)
+    gc.freeze()  # no long collection pauses under the CPU-time fuse
 
 
 def _readings(before, after):
@@ -482,12 +667,18 @@ def _readings(before, after):
 def analyse(text, cursor):
     """Run the real parser on one (text, cursor); returns None if the statement holds, else
     (clause, detail)."""
+    fuse = _FUSE_SHORT if HANG_RE.search(text) else _FUSE_LONG
+    signal.setitimer(signal.ITIMER_VIRTUAL, fuse)
     try:
         ctx = _P2.parse(text, cursor)
+    except _Hang:
+        return ("hang", _HANG_WHERE, f"no result within {fuse} s of CPU time (a parse takes about 0.0002 s)")
     except BaseException as e:  # noqa: BLE001
         tb = traceback.extract_tb(e.__traceback__)
         where = tb[-1].name if tb else "?"
         return ("raises", f"{type(e).__name__}@{where}", f"{type(e).__name__}: {e}"[:160])
+    finally:
+        signal.setitimer(signal.ITIMER_VIRTUAL, 0)
     if ctx is None:
         return None
     before, after = text[:cursor], text[cursor:]
@@ -535,6 +726,12 @@ _WORD_CONT_LEFT = set("a'\"\\$@!{})]")
 def _p2_class(text, cursor, bad):
     """Known, precisely delimited classes; anything else gets its own (minimised) key later."""
     clause = bad[0]
+    if clause == "hang":
+        # tokenize._tokenize (PEP 701 scanning, tolerant mode) never leaves its loop when a
+        # single-quoted f-string is still open at the end of a line that ends in a newline
+        if bad[1] == "_tokenize" and HANG_RE.search(text):
+            return "fstring-unterminated-at-newline"
+        return None
     if clause == "raises" and bad[1] == "AttributeError@handle_error_linecont" and "'NoneType' object has no attribute 'end'" in bad[2]:
         # lexer.handle_error_linecont dereferences state["last"] while no token has been recorded yet:
         # a backslash-newline preceded only by things the lexer does not record (nothing, newlines,
@@ -560,6 +757,26 @@ def _p2_class(text, cursor, bad):
             for k in (1, 2):
                 if cursor - k >= 0 and text[cursor - k : cursor - k + 3] == cq and analyse(text, cursor - k) is None:
                     return "cursor-inside-triple-closing-quote"
+    if clause.startswith("command-") and _FPREFIX_RE.search(text):
+        # f-strings reach the analyser as FSTRING_START / MIDDLE / END pieces which it glues back
+        # from token values and line/column positions: doubled braces lose a character, pieces of a
+        # multi-line literal are misplaced.  Repair transform: the same text with the f removed from the
+        # string prefixes (a plain / raw literal) passes.  Sub-class from the minimised text.
+        t2, c2 = _drop_f(text, cursor)
+        r2 = analyse(t2, c2)
+        if r2 is None or r2[0] != clause:
+            m, _ = _p2_minimise(text, cursor, clause, bad[1])
+            if "{{" in m or "}}" in m:
+                feature = "doubled-brace"
+            elif "\n" in m:
+                feature = "multi-line"
+            elif "{" in m or "}" in m:
+                feature = "brace"
+            else:
+                feature = "other"
+            return "fstring-pieces:" + feature
+        # the same clause fails without the f as well: the f is incidental, classify the plain text
+        return _p2_class(t2, c2, r2)
     if clause == "command-prefix" and LC in text[:cursor]:
         # cursor strictly inside a sub-expression opener (`$(`, `![`, `@$(` ...) glued to a word that
         # contains an elided continuation: handle_command_arg falls back to `cursor - span.start`,
@@ -575,15 +792,34 @@ def _p2_class(text, cursor, bad):
 
 
 _OPENERS = ("$(", "$[", "${", "!(", "![", "@(", "@!(", "@$(")
+_FPREFIX_RE = re.compile(r"""(?<![A-Za-z0-9_])(?:[fF][rR]?|[rR][fF])(?=['"])""")
+
+
+def _drop_f(text, cursor):
+    """The same text with f/F removed from every string prefix; cursor shifted accordingly."""
+    out = []
+    last = 0
+    shift = 0
+    for m in _FPREFIX_RE.finditer(text):
+        keep = m.group(0).replace("f", "").replace("F", "")
+        out.append(text[last : m.start()] + keep)
+        removed = len(m.group(0)) - len(keep)
+        if m.end() <= cursor:
+            shift += removed
+        elif m.start() < cursor:
+            shift += min(removed, cursor - m.start())
+        last = m.end()
+    out.append(text[last:])
+    return "".join(out), cursor - shift
 
 
 def check_stem(item):
     length, alpha_id, stem = item
     alpha = _ALPHAS[alpha_id]
-    res = {"strings": 0, "parses": 0, "contexts": 0, "bad": collections.Counter(), "records": []}
+    res = {"strings": 0, "parses": 0, "skipped_after_hang": 0, "bad": collections.Counter(), "records": []}
     kept = collections.Counter()
     for tail in itertools.product(alpha, repeat=length - len(stem)):
-        text = stem + "".join(tail)
+        text = "".join(stem + tail)
         res["strings"] += 1
         for cursor in range(len(text) + 1):
             res["parses"] += 1
@@ -596,6 +832,10 @@ def check_stem(item):
             if kept[k] < (2 if cls else 12):
                 kept[k] += 1
                 res["records"].append({"text": text, "cursor": cursor, "clause": bad[0], "where": bad[1], "detail": bad[2], "class": cls})
+            if bad[0] == "hang":
+                # the tokenizer runs over the whole text whatever the cursor: do not burn a fuse per position
+                res["skipped_after_hang"] += len(text) - cursor
+                break
     res["bad"] = [[list(k), n] for k, n in sorted(res["bad"].items(), key=lambda kv: repr(kv[0]))]
     return res
 
@@ -604,12 +844,8 @@ def _p2_items(maxlen, alpha_id, minlen=0):
     alpha = _ALPHAS[alpha_id]
     items = []
     for n in range(minlen, maxlen + 1):
-        if n <= _P2_STEM:
-            for tup in itertools.product(alpha, repeat=n):
-                items.append((n, alpha_id, "".join(tup)))
-        else:
-            for tup in itertools.product(alpha, repeat=_P2_STEM):
-                items.append((n, alpha_id, "".join(tup)))
+        for tup in itertools.product(alpha, repeat=min(n, _P2_STEM)):
+            items.append((n, alpha_id, tuple(tup)))
     return items
 
 
@@ -682,19 +918,59 @@ def run(ctx):
         raise common.ToolError(f"vacuous run: only {tot['completions']} completions for {tot['admitted']} admitted cases")
     nontrivial_names = sum(1 for r in res if r["completions"] > 0)
 
+    # ---- part 1b: several entries in the directory, every visiting order
+    pool = ctx.pick(MULTI_POOL_QUICK, MULTI_POOL_THOROUGH)
+    sets_ = multi_sets(pool)
+    ctx.log(f"part 1b: {len(sets_)} directories with 2-3 entries from a pool of {len(pool)} x quote styles x every visiting order")
+    resm = common.pmap(check_multi, sets_, ctx.jobs, chunk=1, init=_init_worker, seed=ctx.seed)
+    totm = collections.Counter()
+    mfails = []
+    for r in resm:
+        for k in ("admitted", "completions", "execs", "same_as_single", "failing"):
+            totm[k] += r[k]
+        mfails.extend(r["fails"])
+    mfails.sort(key=lambda f: (len(f["names"]), f["names"]))
+    per_mkey = collections.Counter()
+    for key, best, f in classify_multi(mfails):
+        per_mkey[key] += 1
+        if per_mkey[key] > 3:
+            continue
+        ctx.violation(
+            key=key,
+            clause="completed text is read back as exactly one argument equal to the name (several candidates)",
+            case={"part": "roundtrip-multi", "names": f["names"], "line": f["line"], "cursor": f["cursor"], "style": f["style"],
+                  "closed": f["closed"], "order": f["order"], "minimal_set": list(best)},
+            observed={"completion": f["completion"], "prefix_len": f["prefix_len"], "spliced_line": f["spliced"], "argv_calls": f["observed"],
+                      "visiting_orders_failing": f["orders_failing"], "visiting_orders_total": f["orders_total"]},
+            expected="one call whose single argument is one of the directory entries",
+        )
+    ctx.log(f"part 1b: {dict(totm)}; {len(per_mkey)} keys")
+    if totm["completions"] == 0:
+        raise common.ToolError("vacuous run: no completion was offered in any multi-entry directory")
+
     # ---- part 2
     p2len = ctx.pick(4, 5)
     items = _p2_items(p2len, "full")
     if ctx.thorough:
         items += _p2_items(6, "reduced", minlen=6)
     ctx.log(f"part 2: all strings of length <= {p2len} over {len(ALPHA2)} symbols" + (f" + length 6 over {len(ALPHA2_REDUCED)} symbols" if ctx.thorough else "") + " x every cursor")
-    res2 = common.pmap(check_stem, items, ctx.jobs, chunk=4, init=_init_p2, seed=ctx.seed)
+    p3len = ctx.pick(3, 4)
+    items3 = _p2_items(3, "strings") + (_p2_items(4, "strings-reduced", minlen=4) if ctx.thorough else [])
+    ctx.log(f"part 3: all sequences of <= 3 symbols out of {len(ALPHA3)} (string prefixes x quote kinds + neighbours)"
+            + (f" + 4 symbols out of {len(ALPHA3_REDUCED)}" if ctx.thorough else "") + " x every cursor")
+    n2 = len(items)
+    res2 = common.pmap(check_stem, items + items3, ctx.jobs, chunk=4, init=_init_p2, seed=ctx.seed)
+    t3 = collections.Counter()
+    for r in res2[n2:]:
+        for k in ("strings", "parses", "skipped_after_hang"):
+            t3[k] += r[k]
     t2 = collections.Counter()
     bad_counts = collections.Counter()
     records = []
-    for r in res2:
-        for k in ("strings", "parses"):
-            t2[k] += r[k]
+    for i, r in enumerate(res2):
+        if i < n2:
+            for k in ("strings", "parses"):
+                t2[k] += r[k]
         for k, n in r["bad"]:
             bad_counts[tuple(k)] += n
         records.extend(r["records"])
@@ -716,12 +992,13 @@ def run(ctx):
             continue
         ctx.violation(
             key=key,
-            clause={"raises": "analysing a command line for completion never fails"}.get(r["clause"], "the context's prefix and suffix reproduce the text around the cursor"),
+            clause={"raises": "analysing a command line for completion never fails", "hang": "analysing a command line for completion never fails"}.get(
+                r["clause"], "the context's prefix and suffix reproduce the text around the cursor"),
             case={"part": "analyser", "text": r["text"], "cursor": r["cursor"]},
             observed=r["detail"],
             expected="a context (or None) whose prefix/suffix reproduce the text around the cursor; no exception",
         )
-    ctx.log(f"part 2: {dict(t2)}; bad (clause, where, class) counts: { {':'.join(str(x) for x in k): n for k, n in bad_counts.items()} }")
+    ctx.log(f"part 2: {dict(t2)}; part 3: {dict(t3)}; bad (clause, where, class) counts: { {':'.join(str(x) for x in k): n for k, n in bad_counts.items()} }")
 
     # ---- evidence
     for n in common.pick_samples([r for r in res if "example" in r], ctx.seed, 5):
@@ -730,16 +1007,20 @@ def run(ctx):
         c2 = _P2.parse(text, cursor)
         ctx.sample({"part": "analyser", "text": text, "cursor": cursor, "context": repr(c2)[:300], "verdict": "ok" if analyse(text, cursor) is None else "violates"})
     ctx.coverage.update(
-        evaluations=tot["completions"] + t2["parses"],
-        distinct_nontrivial=tot["execs"] + t2["strings"],
+        evaluations=tot["completions"] + totm["completions"] + t2["parses"] + t3["parses"],
+        distinct_nontrivial=tot["execs"] + totm["execs"] + t2["strings"] + t3["strings"],
         rule=(
             f"part 1: all {len(names)} names of length <= {maxlen} over {len(ALPHA1)} symbols (+{len(KEYWORD_NAMES)} keyword names) x {{file, dir}} x "
             f"{len(STYLES)} opening-quote styles x every proper typed prefix (literal and backslash-escaped spelling) x {{no closing quote, closing quote after the cursor}}; "
             "a case is admitted when the real CompletionContextParser analyses the cursor as the end of the second word of the command and the completer's own partial-string unquoting reads the whole typed word as a prefix of the name; every completion returned by the real "
             "Completer.complete (path completer only) is spliced and executed; non-trivial = distinct (name, kind, spliced line) executions that reached the argv comparison. "
+            f"part 1b: all {len(sets_)} directories holding 2 or 3 entries out of a pool of {len(pool)} names (one per quoting class: plain, $, backslash, each quote, control character, blank, ...) x "
+            f"{len(STYLES)} opening-quote styles x {{no closing quote, closing quote after the cursor}} x typed prefixes {MULTI_TYPED} x EVERY visiting order of the candidates (the real _quote_paths is handed the candidates as an ordered list); "
             f"part 2: all strings of length <= {p2len} over {len(ALPHA2)} symbols"
             + (f" and all strings of length 6 over {len(ALPHA2_REDUCED)} symbols" if ctx.thorough else "")
-            + " x every cursor position through CompletionContextParser.parse; non-trivial = distinct strings"
+            + f" x every cursor position through CompletionContextParser.parse; part 3: all sequences of <= 3 symbols out of {len(ALPHA3)} ({len(_PREFIXES)} string prefixes x {len(_QUOTES)} quote kinds, the bare quotes doubling as closers, + 8 neighbours)"
+            + (f" and of 4 symbols out of {len(ALPHA3_REDUCED)}" if ctx.thorough else "")
+            + " x every cursor position, each parse under a CPU-time fuse; non-trivial = distinct strings / symbol sequences"
         ),
         exhaustive=True,
         names=len(names),
@@ -753,12 +1034,22 @@ def run(ctx):
         analyser_strings=t2["strings"],
         analyser_parses=t2["parses"],
         analyser_bad=sum(bad_counts.values()),
+        multi_directories=len(sets_),
+        multi_cases_admitted=totm["admitted"],
+        multi_completions_spliced=totm["completions"],
+        multi_lines_executed=totm["execs"],
+        multi_failures_same_as_single_entry=totm["same_as_single"],
+        multi_failures=totm["failing"],
+        prefixed_string_sequences=t3["strings"],
+        prefixed_string_parses=t3["parses"],
+        prefixed_string_positions_skipped_after_hang=t3["skipped_after_hang"],
         bounds={"name_len": maxlen, "analyser_len": p2len, "analyser_len_reduced_alphabet": 6 if ctx.thorough else None},
     )
     ctx.assumptions += [
         "the completion is spliced as prompt_toolkit does (replace prefix_len characters before the cursor, keep the text after it); the readline shell renders the same replacement on the word",
         "only the path completer is registered (XSH.completers = {path}); bash/man/command completers are out of scope; the completed word is the second word of the command",
-        "the candidate directory contains only the one entry under test; THREAD_SUBPROCS=False (argv is read before the alias runs, threading does not take part in it)",
+        "part 1: the candidate directory contains only the one entry under test; part 1b: 2-3 entries, the visiting order of the candidate set is imposed by wrapping path._quote_paths (same function, list instead of set); THREAD_SUBPROCS=False (argv is read before the alias runs, threading does not take part in it)",
+        "a parse that uses more than 1 s of CPU time (0.03 s for texts shaped like the known tokenizer spin) is reported as a hang; after a hang the remaining cursor positions of that text are skipped",
         "names/strings longer than the bound and characters outside the alphabets are covered only by the small-scope hypothesis",
     ]
 
@@ -775,6 +1066,33 @@ def replay(rec):
         return 1 if bad else 0
     _init_worker()
     w = _W
+    if case.get("part") == "roundtrip-multi":
+        names = tuple(case["names"])
+        line, cursor = case["line"], case["cursor"]
+        for n in names:
+            w.make(n, "file")
+        rc = 0
+        try:
+            print("entries :", list(names), "visiting order:", case["order"])
+            print("line    :", repr(line), "cursor:", cursor, "read as:", w.admit(line, cursor, line[cursor:]))
+            w.order = {n: i for i, n in enumerate(case["order"])}
+            comps = w.completions(line, cursor)
+            w.order = None
+            for text, plen in comps:
+                new = w.splice(line, cursor, text, plen)
+                obs = w.execute(new, names)
+                ok = isinstance(obs, list) and len(obs) == 1 and obs[0] in [[n] for n in names]
+                print("completion:", repr(text), "prefix_len:", plen, "-> line", repr(new))
+                print("  observed argv calls:", obs)
+                print("  expected           : one call whose single argument is one of", list(names))
+                print("  verdict :", "ok" if ok else "VIOLATION (unless this is exactly the single-entry completion, see part 1)")
+                if not ok:
+                    rc = 1
+        finally:
+            w.order = None
+            for n in names:
+                os.unlink(os.path.join(w.cwd, n))
+        return rc
     name, kind, line, cursor = case["name"], case["kind"], case["line"], case["cursor"]
     w.make(name, kind)
     rc = 0
